@@ -40,12 +40,12 @@ type c15Frac struct {
 }
 
 type c15Result struct {
-	LoadErr string       `json:"load_err,omitempty"`
-	Journal []vos.Op     `json:"journal"`
-	Before  []c15Frac    `json:"before"` // fractions (creation order) before retention
-	After   []c15Frac    `json:"after"`  // fractions after retention
-	Total   uint64       `json:"total_size"`
-	Status  []docStatus  `json:"status"`
+	LoadErr string         `json:"load_err,omitempty"`
+	Journal []vos.Op       `json:"journal"`
+	Before  []c15Frac      `json:"before"` // fractions (creation order) before retention
+	After   []c15Frac      `json:"after"`  // fractions after retention
+	Total   uint64         `json:"total_size"`
+	Status  []docStatus    `json:"status"`
 	BulkIn  map[int]string `json:"bulk_in"` // bulk -> fraction name
 }
 
@@ -391,9 +391,9 @@ func TestVerifC15(t *testing.T) {
 		return
 	}
 	scripts := [][]string{
-		{"ingest:1", "seal", "ingest:2", "seal", "ingest:3", "retention:2"},  // retention removes the oldest sealed fraction
-		{"ingest:1", "seal", "ingest:2", "seal", "ingest:3", "retention:1"},  // ... the two oldest
-		{"ingest:1", "seal", "ingest:2", "suicide:1", "suicide:0"},           // deletion of a never-sealed and of a sealed fraction
+		{"ingest:1", "seal", "ingest:2", "seal", "ingest:3", "retention:2"}, // retention removes the oldest sealed fraction
+		{"ingest:1", "seal", "ingest:2", "seal", "ingest:3", "retention:1"}, // ... the two oldest
+		{"ingest:1", "seal", "ingest:2", "suicide:1", "suicide:0"},          // deletion of a never-sealed and of a sealed fraction
 		{"ingest:1", "ingest:2", "seal", "ingest:3", "seal", "retention:3"}, // nothing to remove; cache rewrite only
 		{"ingest:1", "seal", "ingest:2", "retention:1"},
 		// a fraction sealed with sorted docs is deleted by a process running with SkipSortDocs, and the reverse
